@@ -73,6 +73,15 @@ def call_method(I, recv, name, args, kwargs, node):
                 return getattr(recv, name)(*args, **kwargs)
             except Exception as e:  # native semantics, native exception
                 raise sx.SymRaise(type(e), sx._txt(node))
+        if isinstance(recv, bytes) and name == "join":
+            from .summaries import sbytes_concat, as_sbytes
+            parts = I.iter_concrete(args[0], node)
+            out = SBytes.from_concrete(b"")
+            for i, p in enumerate(parts):
+                if i and recv:
+                    out = sbytes_concat(out, SBytes.from_concrete(recv))
+                out = sbytes_concat(out, as_sbytes(p))
+            return out
         if isinstance(recv, bytes):
             return sbytes_method(I, SBytes.from_concrete(recv), name, args, kwargs, node)
         if isinstance(recv, str) and name == "join":
